@@ -10,7 +10,11 @@ for d in $(ls seeded/benign | grep -E '^C[0-9]+r$' | sort); do
   id=${d%r}
   case $id in
     C27) ids="C26 C27";;
-    C04) ids="C04 C05 C06 C07";;
+    C04|C05|C06) ids="C04 C05 C06 C07";;
+    C07) ids="C07 C04";;
+    C17) ids="C17 C18 C19";;
+    C18) ids="C18 C17";;
+    C01|C23) ids="C01 C23";;
     C29) ids="C29 C30";;
     C22) ids="C21 C22";;
     *) ids="$id";;
